@@ -64,3 +64,18 @@ Qed.
 Theorem unmentioned_call_consults_nothing cfg s m a :
   lookup m (c_table cfg) = None -> matcher_trace cfg s m a = [].
 Proof. intros Hl. unfold matcher_trace. now rewrite Hl. Qed.
+
+(* user code in the arguments' Debug impls runs only to render a call into an error message: never for a call that is answered *)
+Theorem debug_runs_spec act :
+  debug_runs act = 1 <-> exists e, act = ActPanic e /\ renders_call e = true.
+Proof.
+  unfold debug_runs. destruct act as [v|f| | |e]; try (split; [discriminate|intros (e0 & H & _); discriminate]).
+  destruct (renders_call e) eqn:R; split.
+  - intros _. exists e. split; [reflexivity|exact R].
+  - reflexivity.
+  - discriminate.
+  - intros (e0 & [= <-] & H). congruence.
+Qed.
+
+Theorem answered_call_runs_no_debug act : (forall e, act <> ActPanic e) -> debug_runs act = 0.
+Proof. destruct act; intros H; try reflexivity. now contradiction (H e). Qed.
